@@ -61,6 +61,9 @@ impl SymbolSnapshot {
     }
 }
 
+/// The longest string an expression may result in
+const MAX_STRING_LENGTH: usize = 0x10000;
+
 impl BinaryOp {
     /// Applies the operation, or returns `None` if the result does not fit in 64 bits (or the shift count is invalid)
     fn apply_i64(&self, lhs: i64, rhs: i64) -> Option<i64> {
@@ -107,6 +110,8 @@ impl BinaryOp {
 
     fn try_apply_str(&self, lhs: String, rhs: String) -> Option<SymbolData> {
         match self {
+            // (nothing that ends up in a 6502's memory is this long; strings that keep doubling would eat all memory)
+            BinaryOp::Add if lhs.len() + rhs.len() > MAX_STRING_LENGTH => None,
             BinaryOp::Add => Some((lhs + rhs.as_str()).into()),
             BinaryOp::Eq => Some((lhs == rhs).into()),
             BinaryOp::Ne => Some((lhs != rhs).into()),
@@ -257,6 +262,13 @@ impl<'a> Evaluator<'a> {
                     (Some(SymbolData::String(lhs)), Some(SymbolData::String(rhs))) => {
                         match bin.op.data.try_apply_str(lhs, rhs) {
                             Some(result) => Ok(Some(result)),
+                            None if bin.op.data == BinaryOp::Add => Err(EvaluationError {
+                                span: bin.op.span,
+                                message: format!(
+                                    "the resulting string is longer than {} characters",
+                                    MAX_STRING_LENGTH
+                                ),
+                            }),
                             None => Err(EvaluationError {
                                 span: bin.op.span,
                                 message: format!(
@@ -298,7 +310,16 @@ impl<'a> Evaluator<'a> {
             ExpressionFactor::FunctionCall { name, args, .. } => {
                 match self.functions.get(name.data.as_str()) {
                     Some(callback) => {
-                        let mut callback = callback.lock().unwrap();
+                        // (a function that is being applied already, e.g. 'defined(defined(x))', cannot be applied again)
+                        let mut callback = match callback.try_lock() {
+                            Ok(callback) => callback,
+                            Err(_) => {
+                                return self.error(
+                                    name.span,
+                                    format!("'{}' cannot be used inside of itself", &name.data),
+                                )
+                            }
+                        };
                         self.expect_args(name.span, args.len(), callback.expected_args())?;
                         callback.apply(self, &args.iter().map(|(expr, _)| expr).collect_vec())
                     }
